@@ -247,6 +247,16 @@ func c12Gen(c *core.Ctx) {
 			core.Do(c, c12Case{Pats: []string{p}, Subj: sl.subj, Kind: "exhaustive"}, c12Exec)
 		})
 	}
+	if core.Quick(c) {
+		// a 1/16 slice (chosen by the seed) of the 5-symbol patterns, which the thorough tier enumerates completely
+		k := 0
+		enumStrings(c12PatAlpha, 5, 5, func(p string, _ []int) {
+			k++
+			if k%16 == int(c.Seed%16) {
+				core.Do(c, c12Case{Pats: []string{p}, Subj: "S2", Kind: "exhaustive-slice"}, c12Exec)
+			}
+		})
+	}
 	// random single and multi-pattern cases
 	n := c.Pick(20000, 400000)
 	for i := 0; i < n; i++ {
